@@ -59,7 +59,10 @@ func InverseHint(mod *big.Int, inputs []*big.Int, outputs []*big.Int) error {
 	}
 	nbBits := uint(inputs[0].Uint64())
 	nbLimbs := int(inputs[1].Int64())
-	if len(inputs[2:]) < 2*nbLimbs {
+	// the modulus is on nbLimbs limbs, it is followed by the limbs of the value.
+	// The value can have less (a short constant) or more (a non-reduced
+	// element) limbs than the modulus.
+	if len(inputs[2:]) < nbLimbs {
 		return errors.New("inputs missing")
 	}
 	if len(outputs) != nbLimbs {
